@@ -312,8 +312,8 @@ pub fn run(args: &Args) {
     let mut sum = Summary::new();
     let mut w = CaseWriter::new(&args.out, "c02", HEADER, 80);
     let mut evaluations = 0usize;
-    let n = if args.thorough() { 4000 } else { 400 };
-    let max_variants = if args.thorough() { 40 } else { 12 };
+    let n = if args.thorough() { 1500 } else { 400 };
+    let max_variants = if args.thorough() { 16 } else { 12 };
     for k in 0..n {
         let mut g = Gen { rng: &mut rng, loop_counter: 0 };
         let depth = 2 + (k % 2) as u32;
